@@ -35,6 +35,12 @@ finally:
         subprocess.run("git -C /repo checkout -- .", shell=True)
     else:
         subprocess.run("git -C /repo worktree remove --force %s" % repo, shell=True)
+# the translators write into the shared lean/AdeptModel/Generated: regenerate from the UNCHANGED tree so that no definition
+# derived from the seeded change is left behind (or committed)
+if any(c.upper() in ("C01", "C09", "C12", "C14", "C17") for c in checks):
+    for t in ("unary", "binary", "engines", "reserve", "storagecfg", "globals"):
+        subprocess.run([sys.executable, os.path.join(VERIF, "translate", t + ".py")], stdout=subprocess.DEVNULL, stderr=subprocess.DEVNULL,
+                       env={k: v for k, v in os.environ.items() if k != "VERIF_REPO"})
 meta = json.load(open(os.path.join(d, "meta.json")))
 meta.setdefault("detection", {}).update(results)
 json.dump(meta, open(os.path.join(d, "meta.json"), "w"), indent=1)
